@@ -280,7 +280,7 @@ func checkSystemArgs(c *Ctx, r *Report) {
 		kh := p.Assume[t+".SSHArgs.KnownHostsFile"]
 		cf := p.Assume[t+".SSHArgs.ConfigFile"]
 		key := p.Assume[t+".SSHArgs.PrivateKeyPath"]
-		extra := p.Assume["(len("+t+".ExtraArgs)>0)"]
+		extra := p.Lit("(len(" + t + ".ExtraArgs)>0)")
 		construct := fmt.Sprintf("buildOpenArgs strict=%s user%s knownhosts%s config%s key%s extra=%s #%d", strict, user, kh, cf, key, extra, n)
 		var probs []string
 		follows := func(flag, val string) bool {
